@@ -187,6 +187,74 @@ func run(c *vf.Ctx) {
 		}
 	})
 
+	// ---- 1b. long inputs: lengths around every power of two up to 4 MiB (16 MiB thorough) ---
+	// (an implementation that splits a long call into pieces must carry the counter from
+	// piece to piece; nothing below a few KiB can show that)
+	{
+		maxK := 22
+		if c.Thorough {
+			maxK = 24
+		}
+		var longs []int
+		for k := 16; k <= maxK; k++ {
+			for _, d := range []int{-1, 0, 1, 63, 64, 65} {
+				longs = append(longs, 1<<uint(k)+d)
+			}
+		}
+		longMax := longs[len(longs)-1]
+		lstarts := []uint64{0, 1<<32 - 5, binary.LittleEndian.Uint64(c.Bytes("c09-start", 0, 8))}
+		c.ParallelFor(len(lstarts), func(si int) {
+			start := lstarts[si]
+			var key [32]byte
+			copy(key[:], keys[len(keys)-1])
+			var nonce [8]byte
+			copy(nonce[:], nonces[len(nonces)-1])
+			var ctr [16]byte
+			copy(ctr[:8], nonce[:])
+			binary.LittleEndian.PutUint64(ctr[8:], start)
+			ks := salsaref.KeyStream(key, nonce, start, longMax)
+			data := make([]byte, longMax)
+			for i := range data {
+				data[i] = byte(i*7 + i>>11)
+			}
+			want := salsaref.XOR(data, ks)
+			out := make([]byte, longMax)
+			for _, n := range longs {
+				for _, p := range paths {
+					for _, inplace := range []bool{false, true} {
+						in := data[:n]
+						dst := out[:n]
+						if inplace {
+							copy(dst, in)
+							in = dst
+						}
+						kk, cc := key, ctr
+						pan, val, _ := vf.Protect(func() { p.f(dst, in, &cc, &kk) })
+						c.Eval(1)
+						det := map[string]any{"path": p.name, "start": fmt.Sprintf("%#x", start), "len": n, "inplace": inplace}
+						if pan {
+							det["panic"] = fmt.Sprint(val)
+							c.Violation(p.name+" panics on a long input", det)
+							continue
+						}
+						if !bytes.Equal(dst, want[:n]) {
+							k := 0
+							for dst[k] == want[k] {
+								k++
+							}
+							det["first_diff_at"] = k
+							c.Violation(p.name+" differs from the Salsa20 model on a long input (>= 64 KiB)", det)
+						}
+						if cc != ctr || kk != key {
+							c.Violation(p.name+" modifies its counter or key argument", det)
+						}
+					}
+				}
+				c.Nontrivial(fmt.Sprintf("long/%#x/%d", start, n))
+			}
+		})
+	}
+
 	// ---- 2. one-hot sweep over key and counter bits --------------------------------------
 	c.ParallelFor(384, func(bit int) {
 		var key [32]byte
